@@ -85,10 +85,14 @@ def falsified(group):
         v["failed"].append(v["passed"].pop())
         v["counts"]["failed"] += 1
         v["counts"]["ok"] -= 1
-    else:
+    elif v["failed"]:
         v["passed"].append(v["failed"].pop())
         v["counts"]["failed"] -= 1
         v["counts"]["ok"] += 1
+    else:
+        v["passed"].append(["b2", "k2"])
+        v["counts"]["ok"] += 1
+        v["counts"]["total"] += 1
     return g
 
 
